@@ -21,5 +21,8 @@ fn main() {
     cfg!(&mut run, d64, 1, BigRef);
     cfg!(&mut run, d64, 2, BigRef);
     cfg!(&mut run, d8, 17, BigRef);
+    // widths strictly between 64 and 128 bits with 16-bit digits, three 64-bit digits
+    cfg!(&mut run, d16, 7, BigRef);
+    cfg!(&mut run, d64, 3, BigRef);
     std::process::exit(run.finish());
 }
